@@ -85,6 +85,16 @@ Definition wf_request (r : request) : bool :=
   | RGetConf k (Some vs) => wf_key k && negb (is_nil vs) && forallb wf_text vs
   end.
 
+(* what the correspondence check accepts: as wf_request, but a request of several keys may also hold data
+   blocks (get_info('version', 'config-text')).  The theorems are stated for wf_request; requests that are only
+   wf_request_wide are judged by the oracle on the correspondence run. *)
+Definition wf_request_wide (r : request) : bool :=
+  match r with
+  | RGetInfo kvs => negb (is_nil kvs) && forallb (fun kv => wf_key (fst kv) && wf_ival (snd kv)) kvs
+                    && distinct (map fst kvs)
+  | _ => wf_request r
+  end.
+
 (* ---- input classes of the open findings ---- *)
 Definition quote_wrapped (v : bytes) : bool :=
   match v, rev v with
